@@ -246,23 +246,17 @@ def walk_trees(
             yield entry1, entry2
         else:
             # Check if this entry matches any of our filters
-            for filter_path in paths:
-                if path == filter_path:
-                    # Exact match
-                    yield entry1, entry2
-                    break
-                elif path is not None and path.startswith(filter_path + b"/"):
-                    # This entry is under a filter directory
-                    yield entry1, entry2
-                    break
-                elif (
-                    path is not None
-                    and filter_path.startswith(path + b"/")
-                    and (is_tree1 or is_tree2)
-                ):
-                    # This is a parent directory of a filter path
-                    yield entry1, entry2
-                    break
+            assert path is not None
+            if any(path == fp or path.startswith(fp + b"/") for fp in paths):
+                # Exact match, or this entry is under a filter directory
+                yield entry1, entry2
+            elif (is_tree1 or is_tree2) and any(
+                fp.startswith(path + b"/") for fp in paths
+            ):
+                # Parent directory of a filter path: only the side that is a
+                # tree can contain it, a file or link of that name on the
+                # other side is outside the filter
+                yield (entry1 if is_tree1 else None), (entry2 if is_tree2 else None)
 
 
 def _skip_tree(entry: TreeEntry | None, include_trees: bool) -> TreeEntry | None:
